@@ -178,7 +178,7 @@ def run(ctx):
 META = {
     "technique": "expression-tree analysis of the key (xor terms, whole-object vs bare-value components); data-flow of the property object from the key to the backend build; read-set of the build functions against that object; who-uses for the bare-value combinators",
     "level": "Static decision that the cache key hashes the complete kernel-property object by name and value together with source and device, that exactly this object (plus the recorded key) reaches the backend build and the "
-             "translator, that build code reads its configuration only from it (50+ reads enumerated), that the xor of bare values is never a key on its own, and that one key selects the directory on both entry points. "
+             "translator, that build code reads its configuration only from it (50+ reads enumerated), that the xor of bare values is never a key on its own, that one key selects the directory on both entry points, and (shared with C24) that the JSON dump whose hash forms every property term is injective on strings. "
              "Any two configurations differing in a property the build can read therefore differ in the hashed text; tests never build two configurations whose values coincide.",
     "note": "Does not decide collision freeness of occa::hash (a 256-bit multiplicative/xor hash) nor the process environment (OCCA_CXX, OCCA_CXXFLAGS, ... are read by the build and deliberately held fixed by the statement).",
 }
